@@ -421,7 +421,7 @@ def run(ctx) -> None:
     from .common import member_crossing
     ctx.guard(member_crossing, "R03.14", "jws")  # named members are filled from the value of the same name (generic crossing rule, rules/common.py)
     from .common import forwarding_discipline
-    ctx.guard(forwarding_discipline, "R03.9", ['payload', 'members', 'member', 'private_key', 'protected', 'find_key'], 19, "jws")  # arguments are handed on under their own name (generic routing rule, rules/common.py)
+    ctx.guard(forwarding_discipline, "R03.9", ['payload', 'members', 'member', 'private_key', 'protected', 'find_key', 'value'], 19, "jws")  # arguments are handed on under their own name (generic routing rule, rules/common.py)
     # key given as a key set: the algorithm -> key-type table covers every registered algorithm (C14), and every admissible header is
     # judged by a per-instance registry (C15)
     from .c14 import r14_3
